@@ -7,7 +7,8 @@
    earlier versions of the code (kept for the refuted statements).  Single promise: Join is not
    in this model. *)
 From CV Require Import Promise.Promise Promise.PromiseProofs Promise.PromiseStepProofs Promise.MuProofs
-  Promise.PromiseTheorems Promise.PromiseLive Promise.PromiseProxies Promise.PromiseJoin Promise.PromiseJoinProofs Promise.PromiseJoinThms Promise.PromiseJoinInv Promise.PromiseJoinRefs Promise.PromiseJoinForest Promise.PromiseJoinDest Promise.PromiseJoinChain Promise.PromiseJoinLive Promise.PromiseJoinStuck Promise.PromiseJoinZero.
+  Promise.PromiseTheorems Promise.PromiseLive Promise.PromiseProxies Promise.PromiseJoin Promise.PromiseJoinProofs Promise.PromiseJoinThms Promise.PromiseJoinInv Promise.PromiseJoinRefs Promise.PromiseJoinForest Promise.PromiseJoinDest Promise.PromiseJoinChain Promise.PromiseJoinLive Promise.PromiseJoinStuck Promise.PromiseJoinZero Promise.PromiseJoinHook Promise.PromiseJoinPath
+  Promise.PromiseJoinHookStuck.
 Open Scope Z_scope.
 
 (* the promise resolves at most once; Fulfill/Reject after the first one panics (OPanic), the
@@ -329,3 +330,29 @@ Theorem C11_join_zero_joins_inert_partial : forall v np ops c, Forall no_join_op
   (forall t th, nth_error (jthreads c) t = Some th -> jjoin_pc (j_pc th) = false).
 Proof. exact join_zero_joins_inert. Qed.
 Print Assumptions C11_join_zero_joins_inert_partial.
+
+(* hook waits on chains, Fulfill side: at rest with no call held inside a PipelineCaller, no resolver is waiting for the
+   calls of a proxy hook to drain.  Proof: per-proxy counting (hook.calls = number of call threads that came through the
+   proxy; refs <= 0 and calls = 0 => hook done) and the path invariant (a proxy in r's table has an owner whose next-chain
+   leads to r; a call that came through it is on that chain), so the call it would wait for is blocked on r's joined /
+   pendingDone channel, which the resolver has already closed *)
+Theorem C11_join_fulfil_never_waits_for_hook : forall v np ops c,
+  jv_close_joined v = true -> jv_alloc_table v = true -> join_ordered ops -> jreach v np ops c ->
+  (forall t, jenabled v c t = false) ->
+  (forall t th, nth_error (jthreads c) t = Some th -> j_pc th <> QInCaller) ->
+  forall t th, nth_error (jthreads c) t = Some th -> j_pc th <> QFulWait.
+Proof. exact join_fulfil_never_waits_for_hook. Qed.
+Print Assumptions C11_join_fulfil_never_waits_for_hook.
+
+(* no_stuck on chains, Fulfill-side hook wait eliminated.  PARTIAL: alternative (2) is now only a ReleaseClients /
+   Client.Release call waiting for a hook (QRelWait) *)
+Theorem C11_join_no_stuck_chain_partial : forall v np ops c,
+  jv_close_joined v = true -> jv_alloc_table v = true -> join_ordered ops -> jreach v np ops c ->
+  (forall t, jenabled v c t = false) ->
+  (exists t th, nth_error (jthreads c) t = Some th /\ j_pc th = QInCaller /\
+                jop_gated (j_op th) = true /\ mem_nat t (jgates c) = false) \/
+  (exists t th, nth_error (jthreads c) t = Some th /\ j_pc th = QRelWait) \/
+  (forall t th, nth_error (jthreads c) t = Some th -> j_pc th <> QDone ->
+                exists r, p_caller (getp c r) = true).
+Proof. exact join_no_stuck_chain_partial. Qed.
+Print Assumptions C11_join_no_stuck_chain_partial.
